@@ -63,6 +63,61 @@ def range_bounds(it):
     return None
 
 
+def describe_candidates(interp, coll_term):
+    """normalise the choice set of the short sizes, whether it was built by a
+    loop adding to a set or by a comprehension.
+    -> list of {value, guards: [(term, polarity)], int_elem, range} or None"""
+    x = strip_wrappers(coll_term)
+    out = []
+    if x[0] == "coll":
+        adds = interp.coll_adds.get(x[1], [])
+        if not adds:
+            return None
+        for a in adds:
+            out.append({"value": a["elem"], "guards": list(pc_truth(a["pc"]).items()),
+                        "site": a["site"]})
+    elif x[0] == "comp":
+        elt, it, conds = x[2], strip_wrappers(x[3]), x[4]
+        guards = []
+        for c in conds:
+            guards.extend(pc_truth(((c, True, None),)).items())
+        value = elt
+        # element of an inner generator: the value is the generator's element
+        # expression; guards on the variable are guards on that value
+        alias = None
+        if elt[0] == "elem" and strip_wrappers(elt[1])[0] == "comp":
+            inner = strip_wrappers(elt[1])
+            if inner[4]:
+                return None
+            alias = elt
+            value = inner[2]
+        guards = [(_subst_term(g, alias, value) if alias else g, v) for g, v in guards]
+        out.append({"value": value, "guards": guards, "site": x[5]})
+    else:
+        return None
+    for d in out:
+        v = d["value"]
+        d["int_elem"] = None
+        d["range"] = None
+        item = None
+        if v[0] == "binop" and v[1] == "%" and v[2] == ("const", "%d"):
+            item = v[3]
+        elif v[0] == "call" and v[1] == "str" and len(v[2]) == 1:
+            item = v[2][0]
+        if item is not None and item[0] == "elem":
+            d["int_elem"] = item
+            d["range"] = range_bounds(strip_wrappers(item[1])) if item[1] else None
+    return out
+
+
+def _subst_term(t, old, new):
+    if t == old:
+        return new
+    if not isinstance(t, tuple):
+        return t
+    return tuple(_subst_term(x, old, new) if isinstance(x, tuple) else x for x in t)
+
+
 def run(ctx):
     model = ctx.model
     ctx.rule("R04.src", "the allocator's in-use set is the names of all nameplates rows "
@@ -83,7 +138,7 @@ def run(ctx):
     hc = handler_for(model, "claim")
     for p in handler_paths(model, hc):
         for e, _ in all_events(p, ("call",)):
-            if e["func"] == "WebSocketServer." + hc and e["callee"].startswith("AppNamespace."):
+            if e["func"].startswith("WebSocketServer.") and e["callee"].startswith("AppNamespace."):
                 CLAIM = e["callee"]
                 break
         if CLAIM:
@@ -91,7 +146,7 @@ def run(ctx):
     ALLOC = None
     for p in paths:
         for e, _ in all_events(p, ("call",)):
-            if e["func"] == "WebSocketServer." + h and e["callee"].startswith("AppNamespace."):
+            if e["func"].startswith("WebSocketServer.") and e["callee"].startswith("AppNamespace."):
                 ALLOC = e["callee"]
                 break
         if ALLOC:
@@ -164,15 +219,13 @@ def run(ctx):
         okg = False
         why = "the candidate %s is not tested against the in-use set" % show(c)[:60]
         if c[0] == "call" and c[1] == "random.choice":
-            coll = strip_wrappers(c[2][0])
-            if coll[0] == "coll":
-                adds = model.interp.coll_adds.get(coll[1], [])
-                okg = bool(adds)
-                for a in adds:
-                    truth = pc_truth(a["pc"])
+            desc = describe_candidates(model.interp, c[2][0])
+            if desc:
+                okg = True
+                for d in desc:
                     hit = False
-                    for t, v in truth.items():
-                        if inuse_of(t) == a["elem"] and v is False:
+                    for t, v in d["guards"]:
+                        if inuse_of(t) == d["value"] and v is False:
                             hit = True
                     if not hit:
                         okg = False
@@ -224,6 +277,7 @@ def run(ctx):
 
 
 def _tiling(ctx, p, evs, sel, claim_call, h):
+    model = ctx.model
     i0 = evs.index(sel)
     i1 = evs.index(claim_call)
     loops = [e for e in p.events_between(sel, claim_call)] if hasattr(p, "events_between") else None
@@ -240,21 +294,35 @@ def _tiling(ctx, p, evs, sel, claim_call, h):
         list(range(b[0][1], b[1][1])) == [1, 2, 3]
     ctx.ob("R04.tiling", "sizes are 1,2,3 ascending", ok, outer,
            "" if ok else "size loop iterates %s" % show(outer["iter"])[:60])
-    # inner ranges
-    inner = None
-    for alt in outer["alts"]:
-        for e in alt["events"]:
-            if e["k"] == "loop":
-                inner = e
-    if inner is None:
-        ctx.ob("R04.tiling", "candidate ranges [10^(k-1),10^k)", False, outer,
-               "no candidate loop inside the size loop")
-        return True
-    ib = range_bounds(inner["iter"])
+    # the choice set of each size: candidate ranges and formatting
+    cand = plain(claim_call["args"][0]) if claim_call["args"] else None
+    desc = None
+    for pth in model.paths("ws:onMessage"):
+        for e2, _ in all_events(pth, ("call",)):
+            if e2["callee"] == claim_call["callee"] and e2["args"]:
+                c2 = plain(e2["args"][0])
+                if c2[0] == "call" and c2[1] == "random.choice":
+                    desc = describe_candidates(model.interp, c2[2][0])
+        if desc:
+            break
     size = ("elem", outer["iter"], outer["site"])
-    good = ib is not None
+    if not desc:
+        ctx.ob("R04.tiling", "candidate ranges [10^(k-1),10^k)", False, outer,
+               "the choice set of the short sizes is not understood")
+        return True
+    good = True
     detail = ""
-    if good:
+    okf = True
+    for d in desc:
+        if d["int_elem"] is None:
+            okf = False
+            detail = "candidates are %s" % show(d["value"])[:60]
+            continue
+        ib = d["range"]
+        if ib is None:
+            good = False
+            detail = "candidates iterate %s" % show(d["int_elem"][1])[:60]
+            continue
         for k in (1, 2, 3):
             lo = fold(subst(ib[0], size, ("const", k)))
             hi = fold(subst(ib[1], size, ("const", k)))
@@ -263,25 +331,9 @@ def _tiling(ctx, p, evs, sel, claim_call, h):
                 detail = "for %d digits the candidates are range(%s, %s)" % (
                     k, show(lo), show(hi))
                 break
-    else:
-        detail = "candidate loop iterates %s" % show(inner["iter"])[:60]
-    ctx.ob("R04.tiling", "candidate ranges [10^(k-1),10^k)", good, inner, detail)
-    # formatting
-    item = ("elem", inner["iter"], inner["site"])
-    fmts = []
-    for alt in inner["alts"]:
-        for e, _ in flat_events(alt["events"]):
-            if e["k"] == "coll_add":
-                fmts.append(e)
-    okf = bool(fmts)
-    for e in fmts:
-        el = e["elem"]
-        if not (el == ("binop", "%", ("const", "%d"), item) or
-                el == ("call", "str", (item,), ())):
-            okf = False
-    ctx.ob("R04.tiling", "candidates are %d-formatted ints", okf, inner,
-           "" if okf else "candidates are formatted as %s" % (
-               show(fmts[0]["elem"])[:60] if fmts else "nothing"))
+    ctx.ob("R04.tiling", "candidate ranges [10^(k-1),10^k)", good, outer, detail if not good else "")
+    ctx.ob("R04.tiling", "candidates are %d-formatted ints", okf, outer,
+           "" if okf else detail)
     # a size is passed over only when it has no free candidate
     from ..e3 import pc_truth as _pct
     okskip = True
@@ -291,9 +343,9 @@ def _tiling(ctx, p, evs, sel, claim_call, h):
             continue
         conds = _pct(alt["pc"])
         empties = [tt for tt, v in conds.items()
-                   if v is False and strip_wrappers(tt)[0] == "coll"]
+                   if v is False and strip_wrappers(tt)[0] in ("coll", "comp")]
         others = [tt for tt, v in conds.items()
-                  if not (strip_wrappers(tt)[0] == "coll") and
+                  if not (strip_wrappers(tt)[0] in ("coll", "comp")) and
                   not (tt[0] == "cmp" and tt[1] == "in")]
         if not empties or others:
             okskip = False
